@@ -100,7 +100,7 @@ func TestCheck(t *testing.T) {
 		return
 	}
 	profs := profiles()
-	n := ev.N(2500, 40000)
+	n := ev.N(4000, 40000)
 	ev.RapidCheck(t, "opt-vs-noopt", n, 1, func(rt *rapid.T) {
 		cfg := profs[rapid.IntRange(0, len(profs)-1).Draw(rt, "profile")]
 		gp := gen.Generate(rt, cfg)
